@@ -240,6 +240,8 @@ def check(ctx, rep):
                         tgt = q.recv(e)
                     if e.kind == "store" and e.d["target"][0] == "attr" and e.d["target"][2] == DF:
                         tgt = e.d["target"]
+                    if e.kind in ("store", "del") and e.d["target"][0] == "sub" and isinstance(e.d["target"][1], tuple) and e.d["target"][1][0] == "attr" and e.d["target"][1][2] == DF:
+                        tgt = e.d["target"][1]  # del xs[i] / xs[i] = v / xs[:] = ...
                     if tgt is not None and it.type_of(tgt[1], p) == "C:" + pex.key:
                         ng += 1
                         held = any(l[1][0] == "attr" and l[1][1] == tgt[1] for l in e.locks)
